@@ -55,12 +55,14 @@ def AR.expired (a : AR) (now : Nat) : Bool := !a.isReady && a.ttl.expired now
 /-- an inbound message of the connection: the reply (or exception) to this result's request, or
 unrelated traffic whose dispatch keeps the serving thread busy for `dur` ticks -/
 inductive Msg where
-  | reply (isExc : Bool) (v : Nat)
+  | reply (seq : Nat) (isExc : Bool) (v : Nat)
   | other (dur : Nat)
   deriving DecidableEq, Repr
 
 structure World where
   now : Nat
+  /-- the sequence number of the request this result belongs to (`_get_seq_id()`) -/
+  seq : Nat
   ar : AR
   /-- `seq in conn._request_callbacks` (popped by the first reply, `_seq_request_callback`) -/
   live : Bool
@@ -75,7 +77,7 @@ structure World where
   deriving DecidableEq, Repr
 
 /-- the world right after `_async_request` has sent the request at instant `t0` -/
-def World.init (t0 : Nat) : World := ⟨t0, AR.init, true, [], [], none, []⟩
+def World.init (t0 : Nat) : World := ⟨t0, 0, AR.init, true, [], [], none, []⟩
 
 /-- `AsyncResult.__call__(is_exc, obj)`: dropped iff `expired` at this instant; otherwise publish the
 value, set ready, run every stored callback in order, clear the list. -/
@@ -87,9 +89,11 @@ def call (w : World) (isExc : Bool) (v : Nat) : World :=
     readyAt := some w.now }
 
 /-- `Connection._dispatch` of one inbound message.  A reply goes through `_seq_request_callback`:
-the registry entry is popped; without an entry the reply is ignored. -/
+the registry entry *of its own sequence number* is popped and called; a reply whose sequence number is not
+this request's (a late reply to an earlier, abandoned request; a reply to another live request) is none of
+this result's business, and without an entry the reply is ignored. -/
 def dispatch (w : World) : Msg → World
-  | .reply e v => if w.live then call { w with live := false } e v else w
+  | .reply s e v => if s = w.seq ∧ w.live = true then call { w with live := false } e v else w
   | .other d => { w with now := w.now + d, busy := w.busy ++ [(w.now, d)] }
 
 /-- `Connection.serve(timeout)` on the calling thread (receive lock free): `poll(timeout)` returns true
@@ -108,6 +112,12 @@ def serve (w : World) (t : Timeout) : Option World :=
 (`poll` = `serve(timeout, wait_for_lock=False)`) runs exactly once. -/
 def pollAll0 (w : World) : World :=
   match serve w (Timeout.make w.now (some 0)) with
+  | some w' => w'
+  | none => w
+
+/-- one `serve(t)` by somebody else; if it would block forever nothing changes for this result -/
+def serveOnce (w : World) (t : Timeout) : World :=
+  match serve w t with
   | some w' => w'
   | none => w
 
@@ -178,12 +188,16 @@ def setExpiry (w : World) (τ : Option Int) : World :=
 inductive Ev where
   /-- `res.set_expiry(τ)` -/
   | setExpiry (τ : Option Int)
-  /-- a reply for this request is dispatched at this instant (by whichever thread serves) -/
+  /-- the reply for this request is dispatched at this instant (by whichever thread serves) -/
   | arrive (isExc : Bool) (v : Nat)
   /-- the peer's message becomes readable `delay` ticks from now -/
   | send (delay : Nat) (m : Msg)
   /-- unrelated activity of this thread serves the connection once: `conn.serve(0)` -/
   | serve1
+  /-- unrelated activity serves the connection once with a timeout of its own, `conn.serve(τ)` … -/
+  | serveT (τ : Option Int)
+  /-- … or up to an absolute deadline of its own (another result's `wait` loop: `serve(other._ttl)`) -/
+  | serveAt (t : Timeout)
   | addCallback (c : Nat)
   | qReady | qError | qExpired | qValue | wait
   /-- the thread does something else for `d` ticks -/
@@ -192,9 +206,11 @@ inductive Ev where
 
 def step (w : World) : Ev → World × Obs
   | .setExpiry τ => (setExpiry w τ, .unit)
-  | .arrive e v => (dispatch w (.reply e v), .unit)
+  | .arrive e v => (dispatch w (.reply w.seq e v), .unit)
   | .send d m => ({ w with chan := w.chan ++ [(w.now + d, m)] }, .unit)
   | .serve1 => (pollAll0 w, .unit)
+  | .serveT τ => (serveOnce w (Timeout.make w.now τ), .unit)
+  | .serveAt t => (serveOnce w t, .unit)
   | .addCallback c => (addCallback w c, .unit)
   | .qReady => ((ready w).1, .bool (ready w).2)
   | .qError => ((error w).1, .tri (error w).2)
@@ -215,12 +231,12 @@ def runs : World → List Ev → World
 
 /-! ### requests -/
 
-/-- `Connection.async_request(handler, *args, timeout=τ)`: new result, send, and
+/-- `Connection.async_request(handler, *args, timeout=τ)`: next sequence number, new result, send, and
 `if timeout is not None: res.set_expiry(timeout)` -/
 def asyncRequest (w : World) (τ : Option Int) : World :=
   match τ with
-  | none => { w with ar := AR.init, live := true }
-  | some t => setExpiry { w with ar := AR.init, live := true } (some t)
+  | none => { w with seq := w.seq + 1, ar := AR.init, live := true }
+  | some t => setExpiry { w with seq := w.seq + 1, ar := AR.init, live := true } (some t)
 
 /-- `Connection.sync_request(handler, *args)` with `config["sync_request_timeout"] = τ`:
 `self.async_request(handler, *args, timeout=τ).value` -/
@@ -228,6 +244,48 @@ def syncRequest (w : World) (τ : Option Int) : World × Obs := value (asyncRequ
 
 /-- `timed(proxy, τ)(*args)`: `res = async_(proxy)(*args); res.set_expiry(τ); return res` -/
 def timedCall (w : World) (τ : Option Int) : World := setExpiry (asyncRequest w none) τ
+
+/-! ### callbacks that raise or re-enter
+
+The worlds above take callbacks to return normally and not to touch the result.  `callR` is `__call__`
+alone with callbacks that may raise and may register further callbacks from inside themselves. -/
+
+/-- a callback: when run it registers `adds` (callbacks that simply return) on the result it is given — the
+result is ready by then, so `add_callback` runs each of them at once — and then returns or raises.  (Reading
+`res.value` or issuing a new request from inside a callback leaves this result as it is: such callbacks are
+plain `⟨id, false, []⟩`.) -/
+structure Cb where
+  id : Nat
+  raises : Bool
+  adds : List Nat
+  deriving DecidableEq, Repr
+
+/-- `for cb in self._callbacks: cb(self)`: stops at the first callback that raises; returns the invocations
+(callback, instant) in order and whether one raised -/
+def runCbs (now : Nat) : List Cb → List (Nat × Nat) → List (Nat × Nat) × Bool
+  | [], log => (log, false)
+  | c :: rest, log =>
+    if c.raises then (log ++ (c.id, now) :: c.adds.map (fun a => (a, now)), true)
+    else runCbs now rest (log ++ (c.id, now) :: c.adds.map (fun a => (a, now)))
+
+structure CallOut where
+  isReady : Bool
+  isExc : Option Bool
+  obj : Option Nat
+  log : List (Nat × Nat)
+  /-- callbacks still stored in `_callbacks` afterwards -/
+  stored : List Nat
+  /-- the exception of a callback propagates out of `__call__` into whoever is serving -/
+  raised : Bool
+  deriving DecidableEq, Repr
+
+/-- `AsyncResult.__call__(is_exc, obj)` with such callbacks: when one raises, the value has been published
+and the result is ready, the callbacks after it are not run, and `del self._callbacks[:]` is not reached —
+the whole list stays stored (and is never run again: the registry entry is gone). -/
+def callR (expired : Bool) (now : Nat) (cbs : List Cb) (isExc : Bool) (v : Nat) : CallOut :=
+  if expired then ⟨false, none, none, [], cbs.map Cb.id, false⟩
+  else if (runCbs now cbs []).2 then ⟨true, some isExc, some v, (runCbs now cbs []).1, cbs.map Cb.id, true⟩
+  else ⟨true, some isExc, some v, (runCbs now cbs []).1, [], false⟩
 
 /-- `helpers.timed`: the wrapper keeps the *timeout value* (`self.timeout = timeout`), not a deadline; the
 deadline of each result is computed when that call is made -/
